@@ -1,5 +1,6 @@
 // C13: block, complex and mixed formulations solve the same system.
 #include "hx_amgcl.hpp"
+#include <algorithm>
 #include <amgcl/value_type/complex.hpp>
 #include <amgcl/adapter/block_matrix.hpp>
 #include <amgcl/adapter/complex.hpp>
@@ -51,6 +52,8 @@ template<class Solver, class Call> static void solve_truth(const std::string &nm
 template<int B> static void formulations_case(const Pattern &pb, bool incomplete, int k) { hx::CaseOptions coo; coo.max_paths=10; coo.max_depth=160; hx::run_case("formulations/b"+std::to_string(B)+(incomplete?"/incomplete/":"/full/")+"k"+std::to_string(k)+"/"+pb.name, [&]() { hx::Rng rng(7); SCrs S=blocked(pb,B,incomplete,false,rng); int n=S.n; auto Sm=hx::to_amgcl(S);
     typedef be::builtin<Blk<B>> BB;
     { typedef amgcl::make_block_solver<amgcl::amg<BB,co::aggregation,rx::spai0>, sv::cg<BB>> MBS; typename MBS::params p; p.solver.maxiter=k; p.solver.tol=scalar(0); p.solver.abstol=scalar(0); p.precond.coarse_enough=1; MBS s(*Sm,p); solve_truth<MBS>("make_block_solver<amg<aggregation,spai0>,cg>",S,[&](NV &F, NV &X){ return s(F,X); });
+      // the scalar matrix with the entries of every row in REVERSED order ("diagonal first" and other unsorted CRS layouts are legal input of make_solver and amg): same operator, same solve
+      { SCrs Sr=S; for (int i=0;i<n;++i) { std::reverse(Sr.col.begin()+Sr.ptr[i],Sr.col.begin()+Sr.ptr[i+1]); std::reverse(Sr.val.begin()+Sr.ptr[i],Sr.val.begin()+Sr.ptr[i+1]); } auto Srm=hx::to_amgcl(Sr); bool threw=false; try { MBS sr(*Srm,p); solve_truth<MBS>("make_block_solver built from a scalar matrix with unsorted rows",S,[&](NV &F, NV &X){ return sr(F,X); }); } catch (const std::exception&) { threw=true; } hx::require("make_block_solver accepts a scalar matrix with unsorted rows", !threw); }
       // three-argument call: the system matrix is the one the CALLER passes (here: off-diagonal entries scaled by 3/4), the stored one only built the preconditioner
       SCrs S2=S; for (int i=0;i<n;++i) for (ptrdiff_t q=S2.ptr[i];q<S2.ptr[i+1];++q) if (S2.col[q]!=i) S2.val[q]=S2.val[q]*scalar(3)/scalar(4); auto S2m=hx::to_amgcl(S2); be::crs<Blk<B>,ptrdiff_t,ptrdiff_t> B2m(amgcl::adapter::block_matrix<Blk<B>>(*S2m));
       solve_truth<MBS>("make_block_solver three-argument call solves the system of the matrix passed by the caller",S2,[&](NV &F, NV &X){ return s(B2m,F,X); }); }
